@@ -11,6 +11,7 @@ import Propka.Model.EnergyDriver
 import Propka.Model.Protonate
 import Propka.Model.PairLoop
 import Propka.Model.Angle
+import Propka.Model.Coupling
 /-! Line-protocol driver: one request per line `<module> <args…>`, one response line each. -/
 open Propka
 
@@ -31,6 +32,7 @@ def dispatch (ws : List String) : String :=
   | "pairloop" :: r => PairLoop.handle r
   | "topup" :: r => TopUp.handle r
   | "angle" :: r => Angle.handle r
+  | "coupling" :: r => Coupling.handle r
   | ["ping"] => "pong"
   | _ => "bad-op"
 
